@@ -65,6 +65,22 @@ pub struct Model {
     pub ever_removed: BTreeSet<B32>,
     /// highest marker time ever observed per address (monotonicity check, survives everything)
     pub marker_high: BTreeMap<AddrKey, u64>,
+    /// An `a` target that names a plain replaceable kind WITH an identifier ("10002:<key>:foo") is
+    /// an odd target: plain replaceable addresses have no identifier. Two consistent readings
+    /// exist - the tag names the address (key, kind), identifier dropped (the default here), or
+    /// the tag is ignored altogether. The executor sets this when the implementation under test
+    /// shows the second reading; anything in between (events removed but no marker that refuses
+    /// them later, or a marker without the removal) is neither.
+    pub odd_a_ignored: bool,
+}
+
+/// the address an `a` target stands for, and whether the target was odd (see `odd_a_ignored`)
+pub fn norm_target(a: AddrKey) -> (AddrKey, bool) {
+    if is_replaceable(a.kind) && !a.d.is_empty() {
+        (AddrKey { kind: a.kind, pk: a.pk, d: vec![] }, true)
+    } else {
+        (a, false)
+    }
 }
 
 impl Model {
@@ -87,7 +103,8 @@ impl Model {
                         }
                     } else if t[0] == "a" {
                         if let Some(a) = parse_a_target(&t[1]) {
-                            let _ = self.addr_universe.insert(a);
+                            let _ = self.addr_universe.insert(a.clone());
+                            let _ = self.addr_universe.insert(norm_target(a).0);
                         }
                     }
                 }
@@ -231,6 +248,10 @@ impl Model {
                     if let Some(a) = parse_a_target(&t[1]) {
                         if a.pk != e.pk {
                             continue; // foreign: inert
+                        }
+                        let (a, odd) = norm_target(a);
+                        if odd && self.odd_a_ignored {
+                            continue;
                         }
                         let cur = self.deleted_addrs.get(&a).copied();
                         let new = cur.map_or(e.at, |c| c.max(e.at));
